@@ -306,7 +306,7 @@ var OlvmNoGaslimit = false
 func olvmEnvCode() []byte {
 	vals := []byte{ovCALLER, ovORIGIN, ovTIMESTAMP, ovNUMBER, ovCHAINID, ovGASPRICE, ovSELFBALANCE, ovADDRESS, ovCALLVALUE}
 	a := newOlvmAsm()
-	a.sel().caseOf(1, "store").caseOf(2, "log").caseOf(3, "bhash").caseOf(4, "basefee").caseOf(5, "ext").caseOf(6, "probe").caseOf(7, "bhash3").caseOf(8, "logpanic")
+	a.sel().caseOf(1, "store").caseOf(2, "log").caseOf(3, "bhash").caseOf(4, "basefee").caseOf(5, "ext").caseOf(6, "probe").caseOf(7, "bhash3").caseOf(8, "logpanic").caseOf(9, "probepanic")
 	a.op(ovSTOP)
 	a.label("store")
 	for i, v := range vals {
@@ -327,6 +327,8 @@ func olvmEnvCode() []byte {
 	a.push(1).arg(0).op(ovADD, ovNUMBER, ovSUB, ovBLOCKHASH).sstoreTo(0x25).op(ovSTOP)
 	// a log, then a panic inside the EVM (BASEFEE with a nil base fee)
 	a.label("logpanic").push(32).push(0).op(ovLOG0, ovBASEFEE).sstoreTo(0x26).op(ovSTOP)
+	// a third address read (it is warm from here on in this transaction), then the same panic
+	a.label("probepanic").arg(0).op(ovBALANCE).sstoreTo(0x27).op(ovBASEFEE).sstoreTo(0x26).op(ovSTOP)
 	gl := byte(ovGASLIMIT)
 	if OlvmNoGaslimit {
 		gl = ovCODESIZE
@@ -938,6 +940,15 @@ func (st *olvmState) panicScenario(c *Ctx, snd *[]*olvmSender) []Tx {
 	out := []Tx{
 		first,
 		st.tx(c, y, &k.Addr, olvmSmall(c), olvmData(2), 200000, "OLVM/env-log-after-panic", nil),
+	}
+	if c.Rng.Intn(3) == 0 {
+		// the aborted transaction had read a third address; the next one reads the same address (what a read costs
+		// depends on whether the address was already read in the same transaction, never on an earlier one)
+		third := ethcmn.BytesToAddress(c.W.Users[pick(c.Rng, len(c.W.Users))].Addr)
+		out = []Tx{
+			st.tx(c, x, &k.Addr, nil, olvmData(9, ethcmn.LeftPadBytes(third.Bytes(), 32)), 200000, "OLVM/probe-then-basefee", &olvmOpt{noBump: true}),
+			st.tx(c, y, &k.Addr, nil, olvmData(6, ethcmn.LeftPadBytes(third.Bytes(), 32)), 300000, "OLVM/env-probe-after-panic", nil),
+		}
 	}
 	for i := range out {
 		out[i].Group = grp
